@@ -161,15 +161,16 @@ StepResult(e, m1, rg1) ==
              wfo == WF(o.t, mb, o.a)
          IN [cl |->
               IF e.exc # "" THEN <<"set:raised">>
-              ELSE IF ~(ch \subseteq (ExtentOf(mem, o) \cup Regions(e.alloc))) THEN <<"frame:set-wrote-outside-object">>
-                   \* bytes changed INSIDE the object but outside the element are judged by their effect (values, sizes, shapes and
-                   \* references of every other part, below): padding that belongs to no part may be rewritten
-              ELSE IF wfo # "" THEN <<"set:" \o wfo>>
+              ELSE IF wfo # "" THEN NonEmpty(<<IF ~(ch \subseteq (ExtentOf(mem, o) \cup Regions(e.alloc))) THEN "frame:set-wrote-outside-object" ELSE "">>) \o <<"set:" \o wfo>>
               ELSE LET nt == NewTargetClauses(e.b, news, m1, e)
+                       \* bytes changed INSIDE the object but outside the element are judged by their effect (values, sizes, shapes and
+                       \* references of every other part, below): padding that belongs to no part may be rewritten
+                       fr == IF ~(ch \subseteq (ExtentOf(mem, o) \cup Regions(e.alloc))) THEN "frame:set-wrote-outside-object" ELSE ""
                        deco == Decode(o.t, mb, o.a)
                        got == GetAt(o.t, deco, lp)
                        others == {p \in heap \ {o} : Touched(mem, m1, e, p) /\ ObjClause(m1, p) # ""}
                    IN NonEmpty(<<
+                        fr,
                         IF Mask(el, got) # Mask(el, nv) THEN "set:element-value@" \o Where(el, Mask(el, nv), Mask(el, got)) ELSE IF got # nv THEN "ref:word" ELSE "",
                         IF got = nv /\ deco # o1.v THEN "set:other-element-changed" ELSE "",
                         \* the assigned element keeps its stored size and shape (what lies INSIDE a compound value that was assigned
